@@ -25,7 +25,10 @@ def bases(proto):
             "GroupStatus": [(0x2B, C.at4_group_status(g[:1])), (0x2B, C.at4_group_status(g[1:2])), (0x2B, C.at4_group_status(g))],
             "AcStatus": [(0x2D, C.at4_ac_status(a[:1])), (0x2D, C.at4_ac_status(a))],
             "AcTimerStatus": [(0x37, C.at4_timer_status([((2, 3), (4, 5)), (None, (23, 59)), ((0, 0), None), (None, None)]))],
-            "AcAbility": [(0x1F, C.at4_ability(ab[:1])), (0x1F, C.at4_ability(ab[1:])), (0x1F, C.at4_ability(ab))],
+            "AcAbility": [(0x1F, C.at4_ability(ab[:1])), (0x1F, C.at4_ability(ab[1:])), (0x1F, C.at4_ability(ab)),
+                          (0x1F, C.at4_ability([dict(ab[0], groups=[])])),                       # bitmap present, no group
+                          (0x1F, C.at4_ability([dict(ab[0], groups=[]), dict(ab[1], groups=list(range(16)))])),
+                          (0x1F, C.at4_ability([dict(ab[1], groups=[15]), dict(ab[0], n=2, groups=[0, 8])]))],
             "GroupNames": [(0x1F, C.at4_group_names([(0, b"Living"), (1, b"Kitchen"), (2, b"Bedroom1")]))],
             "AcError": [(0x1F, C.error_info(0, b"ER: FFFE")), (0x1F, C.error_info(1, b""))],
             "ConsoleVersion": [(0x1F, C.version(False, b"1.3.3|1.3.3")), (0x1F, C.version(True, b"2.3.4"))],
